@@ -1191,6 +1191,19 @@ def snapshot_violations(s):
             out.append(("X2.queued-not-filed", f"operation {i} is queued and at the same time unflushed / awaiting its acknowledgement"))
         if s["cur"] == i:
             out.append(("X4.current-not-queued", f"operation {i} is being written and still queued"))
+    # nothing that waits for a SUBACK / UNSUBACK is ever queued with high priority
+    for i in s["highq"]:
+        if i in ops and ops[i]["kind"] in ("subscribe", "unsubscribe"):
+            out.append(("HQK.high-kind", f"{ops[i]['kind']} operation {i} is in the high-priority queue"))
+    # one-at-a-time drain: while operations interrupted by the last disconnection are unresolved (slow-start count not zero)
+    # at most one operation awaits its acknowledgement, and an acknowledged operation that is being written and not yet
+    # filed finds both tables empty
+    if s["state"] == "Connected" and s.get("drain_one") and s.get("slow"):
+        if len(s["ppub"]) + len(s["pnon"]) > 1:
+            out.append(("SS.one-at-a-time", f"{len(s['ppub']) + len(s['pnon'])} operations await their acknowledgement while the slow-start count is {s['slow']} (one-at-a-time drain)"))
+        c = s["cur"]
+        if c is not None and c in ops and needs_id(ops[c]["kind"]) and c not in ppub_vals and (s["ppub"] or s["pnon"]):
+            out.append(("SS.one-at-a-time", f"operation {c} is being written while another awaits its acknowledgement and the slow-start count is {s['slow']} (one-at-a-time drain)"))
     # written-but-unflushed operations are completed by the write completion of the buffer that carried their last byte: there
     # must be one to come (the signature of a packet left 'being written' after its last byte)
     if s["pwc"] and not s.get("pending_write", True):
@@ -1235,6 +1248,7 @@ def wf_monitor(walk, prefixes):
         s = snap_state(o)
         if s is None:
             continue
+        s["drain_one"] = walk.cfg.get("drain") == "one"
         for clause, detail in snapshot_violations(s):
             if clause.split(".")[0] in prefixes and clause not in seen:
                 seen.add(clause)
@@ -1242,8 +1256,8 @@ def wf_monitor(walk, prefixes):
     return out
 
 
-WF_FAMILIES = {"C01": ("LOC", "TP", "TN", "WC", "QB"), "C06": ("P1", "P2", "P3"), "C04": ("PR", "PR2", "H2"),
-               "C07": ("H1", "D1"), "C09": ("F",), "C10": ("S",), "C16": ("C1",),
+WF_FAMILIES = {"C01": ("LOC", "TP", "TN", "WC", "QB", "X2", "X4", "X9", "PWC"), "C06": ("P1", "P2", "P3"), "C04": ("PR", "PR2", "H2", "X7"),
+               "C07": ("H1", "D1"), "C09": ("F", "SS"), "C10": ("S", "X5", "HQK"), "C16": ("C1",), "C14": ("KA",),
                # an operation that survives being offline is queued for the next connection; one that does not was failed: never neither
                "C15": ("LOC",)}
 
